@@ -9,4 +9,6 @@ for d in checks/*/; do
   id=$(basename "$d" | tr a-z A-Z)
   go test -c -tags verif -vet=off -o ".build/bin/$id.test" "./$d" || rc=2
 done
+# the race-detector build used by C09 (cold: 30-45 s) so that the quick tier finds it in the build cache
+go test -c -race -tags verif -vet=off -o .build/bin/C09.race.test ./checks/c09/ || rc=2
 exit $rc
